@@ -27,7 +27,7 @@ checks as they then stood: `seeded-logs/run-on-repo-2026-10-01b.log` — 201 rep
 `no-failing-input-found` on their first VIOLATION line; ONE early change, C05-dry-run-left-flip-order, was no longer reported:
 later generator changes had shifted the random stream away from the shape it needs — a family that produces that shape on
 purpose was added and the change is reported again, which is what re-running the whole collection is for; waves 7 and 8:
-`seeded-logs/run-on-repo-2026-10-01c.log` (30/30) and `…-01d.log` (22/22)).
+`seeded-logs/run-on-repo-2026-10-01c.log` (30/30) and `…-01d.log` (22/22); wave 9: `…-01e.log`).
 
 Lessons that changed the generators: operands must include (i) more than 65,536 nodes (needs the fast engine), (ii) more
 than 256 / 1024 variables and level gaps of exactly 63/64/65, (iii) same-shaped sub-diagrams on variables congruent
@@ -80,8 +80,13 @@ dot export, (xliii) repeated literals in sorted `select` lists inside histories.
 machinery: a change that makes the library request 100 GB took the harness PROCESS down (CHECK-ERROR, no verdict); the
 transcript is now flushed after every case, a dead process is the outcome `ABORT` for the case it died in (a confirmed
 violation) and the shard resumes with the next program; from the eighth wave (`*-w8-*`, 22 changes, 21 caught by the first
-run): (xliv) `ternary_op` over operands that store identical nodes at identical indices but denote different functions.
-First-run rates per wave: 80/100 (waves 1–2), 7/12, 19/30, 21/30, 26/30, 23/30, 21/22.
+run): (xliv) `ternary_op` over operands that store identical nodes at identical indices but denote different functions;
+from the ninth, small wave (`*-w9-*`, 6 changes on the six least-seeded properties, 5 caught by the first run): (xlv) ONE
+diagram exported several times in a row inside one program under different name lists of the same length — a thread-local
+memo of `to_dot_string` keyed by the diagram, the pruning flag and the NUMBER of names answered with the earlier labels; the
+harness keeps one worker thread per shard, so state of that kind survives between the cases of a program, and C20 now has a
+relabelling-storm family that mixes `to_dot_string`, `write_as_dot_string` and the anonymous-name entry point.
+First-run rates per wave: 80/100 (waves 1–2), 7/12, 19/30, 21/30, 26/30, 23/30, 21/22, 5/6.
 
 | seeded change | property | needs | caught | by |
 |---|---|---|---|---|
